@@ -55,12 +55,57 @@ theorem InvT.pres_d4 {cfg : Cfg} {s s' : State} {l : Label} (hB : InvB s) (hC : 
   all_goals (first | (exfalso; simp only [Label.grpD, *] at hg; done) | (exfalso; simp only [Label.grpD, *] at hg; omega) | skip)
   all_goals (try simp only [allRootsEnded_iff, anyRootEnded_iff, othersEnded_iff, hungLive_false_iff,
     noLiveWorkerOf_iff, noLiveSub_iff, noLiveStream_iff] at *)
-  all_goals (refine ⟨?_, ?_, ?_, ?_, ?_, ?_, ?_, ?_, ?_, ?_, ?_⟩)
+  all_goals constructor
   all_goals (first | exact h1 | exact h2 | exact h3 | exact h4 | exact h5 | exact h6 | exact h7 | exact h8 | exact h9 | exact h10 | exact h11 | skip)
   all_goals (try simp only [kind_orchestrator_iff, kind_killer_iff, kind_flagChecker_iff, kind_ultimate_iff,
     kind_startupCleanup_iff, kind_coreWatch_iff] at *)
   all_goals (try subst_vars)
   all_goals (try dsimp only)
+  -- focused attempts, field by field, with a pruned context (the general `grind` below is the fallback)
+  all_goals (try (case tfNow =>
+    (try clear h2); (try clear h3); (try clear h4); (try clear h5); (try clear h6); (try clear h7); (try clear h8); (try clear h9); (try clear h10); (try clear h11); (try clear hb2); (try clear hb3); (try clear hb4); (try clear hb5); (try clear hb6); (try clear hb8); (try clear hb9); (try clear hb10); (try clear hb12); (try clear hb2'); (try clear hb9'); (try clear hc9); (try clear hd1); (try clear hd2); (try clear hd2s); (try clear he2); (try clear he8); (try clear he9); (try clear he15); (try clear hgr); (try clear hc12); (try clear he13); (try clear hG); (try clear hkO); (try clear hkS); (try clear hlc); (try clear hg); (try clear hl)
+    grind [upd, Root.kind, TS.active, TS.live, TS.ended, TS.isStopping, failTS, cancelSubs, cancelPingers,
+    cancelRoots, cancelRootsV, Pend.ts, scFailPath, scEarly, G, grace]))
+  all_goals (try (case whoSome =>
+    (try clear h1); (try clear h3); (try clear h4); (try clear h5); (try clear h6); (try clear h7); (try clear h8); (try clear h9); (try clear h10); (try clear h11); (try clear hb2); (try clear hb3); (try clear hb4); (try clear hb5); (try clear hb6); (try clear hb8); (try clear hb9); (try clear hb10); (try clear hb12); (try clear hb2'); (try clear hb9'); (try clear hc9); (try clear hd1); (try clear hd2); (try clear hd2s); (try clear he2); (try clear he8); (try clear he9); (try clear he15); (try clear hgr); (try clear hc12); (try clear he13); (try clear hG); (try clear hkO); (try clear hkS); (try clear hlc); (try clear hg); (try clear hl)
+    grind [upd, Root.kind, TS.active, TS.live, TS.ended, TS.isStopping, failTS, cancelSubs, cancelPingers,
+    cancelRoots, cancelRootsV, Pend.ts, scFailPath, scEarly, G, grace]))
+  all_goals (try (case orchAtSome =>
+    (try clear h1); (try clear h2); (try clear h4); (try clear h5); (try clear h6); (try clear h7); (try clear h8); (try clear h9); (try clear h10); (try clear h11); (try clear hb2); (try clear hb3); (try clear hb4); (try clear hb5); (try clear hb6); (try clear hb8); (try clear hb9); (try clear hb10); (try clear hb12); (try clear hb2'); (try clear hb9'); (try clear hc9); (try clear hd1); (try clear hd2); (try clear hd2s); (try clear he2); (try clear he8); (try clear he9); (try clear he15); (try clear hgr); (try clear hc12); (try clear he13); (try clear hm); (try clear hG); (try clear hkO); (try clear hkS); (try clear hlc); (try clear hg); (try clear hl)
+    grind [upd, Root.kind, TS.active, TS.live, TS.ended, TS.isStopping, failTS, cancelSubs, cancelPingers,
+    cancelRoots, cancelRootsV, Pend.ts, scFailPath, scEarly, G, grace]))
+  all_goals (try (case orchAtLe =>
+    (try clear h1); (try clear h2); (try clear h3); (try clear h5); (try clear h6); (try clear h7); (try clear h8); (try clear h9); (try clear h10); (try clear h11); (try clear hb2); (try clear hb3); (try clear hb4); (try clear hb5); (try clear hb6); (try clear hb8); (try clear hb9); (try clear hb10); (try clear hb12); (try clear hb2'); (try clear hb9'); (try clear hc9); (try clear hd1); (try clear hd2); (try clear hd2s); (try clear he2); (try clear he8); (try clear he9); (try clear he15); (try clear hgr); (try clear hc12); (try clear he13); (try clear hm); (try clear hG); (try clear hkO); (try clear hkS); (try clear hlc); (try clear hg); (try clear hl)
+    grind [upd, Root.kind, TS.active, TS.live, TS.ended, TS.isStopping, failTS, cancelSubs, cancelPingers,
+    cancelRoots, cancelRootsV, Pend.ts, scFailPath, scEarly, G, grace]))
+  all_goals (try (case c2 =>
+    (try clear h1); (try clear h2); (try clear h3); (try clear h4); (try clear h6); (try clear h7); (try clear h8); (try clear h9); (try clear h10); (try clear hb3); (try clear hb4); (try clear hb5); (try clear hb6); (try clear hb2'); (try clear hb9'); (try clear hc9); (try clear hd1); (try clear hd2); (try clear hd2s); (try clear he8); (try clear he9); (try clear he15); (try clear hgr); (try clear hc12); (try clear he13); (try clear hm); (try clear hG); (try clear hkO); (try clear hkS); (try clear hg); (try clear hl)
+    grind [upd, Root.kind, TS.active, TS.live, TS.ended, TS.isStopping, failTS, cancelSubs, cancelPingers,
+    cancelRoots, cancelRootsV, Pend.ts, scFailPath, scEarly, G, grace]))
+  all_goals (try (case d2 =>
+    (try clear h1); (try clear h2); (try clear h3); (try clear h4); (try clear h7); (try clear h8); (try clear h9); (try clear h10); (try clear hb3); (try clear hb4); (try clear hb5); (try clear hb6); (try clear hb8); (try clear hb10); (try clear hb12); (try clear hb2'); (try clear hc9); (try clear hd1); (try clear hd2s); (try clear he2); (try clear he8); (try clear he9); (try clear he15); (try clear hc12); (try clear he13); (try clear hm); (try clear hkO); (try clear hkS); (try clear hlc); (try clear hg); (try clear hl)
+    grind [upd, Root.kind, TS.active, TS.live, TS.ended, TS.isStopping, failTS, cancelSubs, cancelPingers,
+    cancelRoots, cancelRootsV, Pend.ts, scFailPath, scEarly, G, grace]))
+  all_goals (try (case d2S =>
+    (try clear h1); (try clear h2); (try clear h3); (try clear h4); (try clear h6); (try clear h7); (try clear h8); (try clear h9); (try clear h11); (try clear hb3); (try clear hb4); (try clear hb5); (try clear hb6); (try clear hb8); (try clear hb10); (try clear hb12); (try clear hb2'); (try clear hb9'); (try clear hc9); (try clear hd1); (try clear hd2); (try clear he2); (try clear he8); (try clear he9); (try clear he15); (try clear hgr); (try clear hc12); (try clear he13); (try clear hm); (try clear hG); (try clear hkO); (try clear hkS); (try clear hlc); (try clear hg); (try clear hl)
+    grind [upd, Root.kind, TS.active, TS.live, TS.ended, TS.isStopping, failTS, cancelSubs, cancelPingers,
+    cancelRoots, cancelRootsV, Pend.ts, scFailPath, scEarly, G, grace]))
+  all_goals (try (case p2 =>
+    (try clear h1); (try clear h2); (try clear h3); (try clear h4); (try clear h5); (try clear h6); (try clear h7); (try clear h8); (try clear h9); (try clear h10); (try clear hb2); (try clear hb3); (try clear hb4); (try clear hb5); (try clear hb6); (try clear hb8); (try clear hb9); (try clear hb10); (try clear hb2'); (try clear hb9'); (try clear hc9); (try clear hd1); (try clear hd2); (try clear hd2s); (try clear he2); (try clear he8); (try clear he9); (try clear he15); (try clear hgr); (try clear hc12); (try clear he13); (try clear hm); (try clear hG); (try clear hkO); (try clear hkS); (try clear hlc); (try clear hg); (try clear hl)
+    grind [upd, Root.kind, TS.active, TS.live, TS.ended, TS.isStopping, failTS, cancelSubs, cancelPingers,
+    cancelRoots, cancelRootsV, Pend.ts, scFailPath, scEarly, G, grace]))
+  all_goals (try (case whoRoot =>
+    (try clear h2); (try clear h3); (try clear h4); (try clear h5); (try clear h6); (try clear h8); (try clear h9); (try clear h10); (try clear h11); (try clear hb2); (try clear hb4); (try clear hb6); (try clear hb9); (try clear hb10); (try clear hb12); (try clear hb2'); (try clear hb9'); (try clear hd2); (try clear hd2s); (try clear he2); (try clear he8); (try clear he15); (try clear hg); (try clear hl)
+    grind [upd, Root.kind, TS.active, TS.live, TS.ended, TS.isStopping, failTS, cancelSubs, cancelPingers,
+    cancelRoots, cancelRootsV, Pend.ts, scFailPath, scEarly, G, grace]))
+  all_goals (try (case whoSub =>
+    (try clear h2); (try clear h5); (try clear h6); (try clear h7); (try clear h9); (try clear h10); (try clear h11); (try clear hb3); (try clear hb5); (try clear hb8); (try clear hb10); (try clear hb12); (try clear hd1); (try clear hd2s); (try clear he9); (try clear hc12); (try clear he13); (try clear hkO); (try clear hkS); (try clear hg); (try clear hl)
+    grind [upd, Root.kind, TS.active, TS.live, TS.ended, TS.isStopping, failTS, cancelSubs, cancelPingers,
+    cancelRoots, cancelRootsV, Pend.ts, scFailPath, scEarly, G, grace]))
+  all_goals (try (case bound =>
+    (try clear h2); (try clear h3); (try clear h4); (try clear h5); (try clear h6); (try clear h7); (try clear h8); (try clear h10); (try clear h11); (try clear hb2); (try clear hb3); (try clear hb4); (try clear hb5); (try clear hb6); (try clear hb8); (try clear hb9); (try clear hb10); (try clear hb12); (try clear hb2'); (try clear hb9'); (try clear hd1); (try clear hd2); (try clear hd2s); (try clear he2); (try clear he8); (try clear he9); (try clear he15); (try clear hgr); (try clear hc12); (try clear he13); (try clear hG); (try clear hkO); (try clear hkS); (try clear hlc); (try clear hg); (try clear hl)
+    grind [upd, Root.kind, TS.active, TS.live, TS.ended, TS.isStopping, failTS, cancelSubs, cancelPingers,
+    cancelRoots, cancelRootsV, Pend.ts, scFailPath, scEarly, G, grace]))
   all_goals (grind (splits := 30) [upd, Root.kind, TS.active, TS.live, TS.ended, TS.isStopping, failTS, cancelSubs, cancelPingers,
     cancelRoots, cancelRootsV, Pend.ts, scFailPath, scEarly, G, grace])
 
